@@ -133,6 +133,14 @@ def check_regrid(case):
     h = case['h']
     got = guarded(lambda: list(regrid(x, y, h)))
     got = [(int(k), float(xr)) for k, xr in got]
+    # the caller regrids the same arrays again (another pass, another step
+    # tried before): the crossings of the record it holds are still those
+    again = guarded(lambda: list(regrid(x, y, h)))
+    again = [(int(k), float(xr)) for k, xr in again]
+    if again != got:
+        raise Violation(
+            'second-call-on-the-same-arrays-differs',
+            'first {} then {}'.format(got[:6], again[:6]))
     got_levels = [k for k, _ in got]
     labels = {case['regime']}
     if case['regime'] == 'lattice':
